@@ -20,6 +20,13 @@ CHECKS = {
              "random partitions; every call is compared (status, error code, value hash, global end) with a fresh parser on the concatenation; streams are resumed at reported ends. "
              "Evidence lists the lexical situations in which a chunk boundary was placed (all 43 required kinds or the run is inconclusive).",
         note="trusted: the library's own one-shot behaviour on a fresh parser is the reference (differential), gcc ASan/UBSan, the shim's allocation ledger"),
+    "C04": dict(
+        level="exploration", design="DESIGN.md §3 C04",
+        technique="runtime monitoring: ASan+UBSan (exact-size heap blocks, PROT_NONE guard page), allocation-ledger conservation, outcome-trichotomy assertion on every call, reset-vs-new differential; thorough adds valgrind memcheck",
+        text="~8*10^6 (quick) parse calls on arbitrary bytes / hostile documents / 10^6-deep nesting / 1 MiB tokens with random flag words, depth limits and chunkings under sanitizers; every call's outcome "
+             "asserted to be one of the three legal ones with end<=len; ledger must return to zero after free; (interrupted A, reset, sensitive Y) pairs compared with a new parser; 100 interrupt+reset cycles must not grow. "
+             "All 15 producible error codes must be observed or the run is inconclusive.",
+        note="trusted: gcc ASan/UBSan, the shim ledger (validated by seeded leaks), 30-min watchdog as the termination criterion"),
 }
 
 NOT_YET = {}
